@@ -91,8 +91,8 @@ Definition roulette_terminal (ss : sset) (c : nat) : M sym := wheel_roulette (te
 Definition init_par : M f64 := fun ds =>
   match ds with
   | DInt lo hi v :: r => if valid_draw_b (DInt lo hi v) then Some (F64.of_Z v, r) else None
-  | DReal b :: r => Some (F64.of_bits b, r)
-  | _ => None
+  | DReal b :: r => if F64.is_nan (F64.of_bits b) then None else Some (F64.of_bits b, r)
+  | _ => None                 (* random::between<double> never returns a NaN (H_draws) *)
   end.
 
 (* basic_gene(const terminal &) *)
@@ -159,7 +159,8 @@ Definition gene_ok_b (ss : sset) (R C patch r c : nat) (ge : gene) : bool :=
   Nat.eqb (length (g_args ge)) (arity (g_sym ge)) &&
   forallb (fun a => Nat.ltb r a && Nat.ltb a R) (g_args ge) &&
   forallb (fun ac => Nat.ltb ac C) (s_argcats (g_sym ge)) &&
-  (if Nat.leb (R - patch) r then is_terminal (g_sym ge) else true).
+  (if Nat.leb (R - patch) r then is_terminal (g_sym ge) else true) &&
+  (if s_parametric (g_sym ge) then negb (F64.is_nan (g_par ge)) else true).   (* an ephemeral constant is a number *)
 
 Definition ind_ok_b (ss : sset) (patch : nat) (g : genome) : bool :=
   Nat.leb 1 patch && Nat.ltb patch (rows g) && Nat.eqb (cats g) (ss_cats ss) &&
@@ -245,6 +246,18 @@ Definition copy_cell (from to : genome) (r c : nat) : genome := put_cell to r c 
 Definition copy_rows (from to : genome) (rs : list nat) : genome :=
   fold_left (fun t r => fold_left (fun t' c => copy_cell from t' r c) (seq 0 (cats from)) t) rs to.
 
+(* rows cut, cut+1, ..., R-1 (none when cut >= R) *)
+Definition rows_from (cut : Z) (R : nat) : list nat :=
+  if (cut <? Z.of_nat R)%Z then seq (Z.to_nat cut) (R - Z.to_nat cut) else [].
+(* between(lo, hi) when lo < hi; any size_t for an empty range (see OnePoint below) *)
+Definition between_or_any (lo hi : Z) : M Z := fun ds =>
+  if (lo <? hi)%Z then between lo hi ds
+  else match ds with
+       | DInt lo' hi' v :: r =>
+           if (lo =? lo') && (hi =? hi') && (0 <=? v) && (v <? 2 ^ 64) then Some (v, r) else None
+       | _ => None
+       end.
+
 (* random_locus(prg): the exon set, grown while it is iterated *)
 Definition next_after (cur : locus) (s : list locus) : option locus := find (fun x => locus_ltb cur x) s.
 Fixpoint exons_loop (fuel : nat) (g : genome) (s : list locus) (cur : locus) : option (list locus) :=
@@ -289,8 +302,13 @@ Definition crossover_genome (x : xover) (from to : genome) : M genome :=
   let R := rows from in
   match x with
   | OnePoint =>
-      cut <- between 1 (Z.of_nat R - 1) ;;
-      ret (copy_rows from to (seq (Z.to_nat cut) (R - Z.to_nat cut)))
+      (* cut = random::between<index_t>(1, i_sup - 1).  With 2 rows the range is empty:
+         std::uniform_int_distribution<size_t>(1, 0) is outside its contract; libstdc++ then
+         computes the range b - a = 2^64 - 1 and returns engine() + 1 modulo 2^64, i.e. ANY
+         size_t.  The model accepts every such value ([between_or_any]); the loop
+         "for (i = cut; i < i_sup; ++i)" copies rows cut..R-1, none when cut >= R. *)
+      cut <- between_or_any 1 (Z.of_nat R - 1) ;;
+      ret (copy_rows from to (rows_from cut R))
   | TwoPoints =>
       cut1 <- between 0 (Z.of_nat R - 1) ;;
       cut2 <- between (cut1 + 1) (Z.of_nat R) ;;
@@ -399,19 +417,8 @@ Definition cse (i : ind) : option ind :=
    Props/Refuted_C02.v), so std::map gives no guarantee at all for it; it is
    kept only to state that refutation and is not used by any operator. *)
 
-(* hypothesis of cse_wf, executable: on the parameters that occur in the
-   genome, "neither is less" (F64.ltb) is reflexive and transitive -- true
-   whenever no parameter is a NaN *)
-Definition params_of (g : genome) : list f64 :=
-  flat_map (fun r => flat_map (fun c => match cell g r c with
-                                         | Some ge => if s_parametric (g_sym ge) then [g_par ge] else []
-                                         | None => [] end) (seq 0 (cats g))) (seq 0 (rows g)).
+(* "neither is less" for the exact order on doubles *)
 Definition par_incomp (x y : f64) : bool := negb (F64.ltb x y) && negb (F64.ltb y x).
-Definition params_swo_b (g : genome) : bool :=
-  let ps := params_of g in
-  forallb (fun x => par_incomp x x &&
-    forallb (fun y => forallb (fun z =>
-      if par_incomp x y && par_incomp y z then par_incomp x z else true) ps) ps) ps.
 
 (* ------------------------------------------------------------------ teams *)
 (* team<i_mep>: a vector of individuals; the operators are applied member by
